@@ -25,6 +25,8 @@ RULE += (" Two in ten flow-shaped factories also contain rework loops (a machine
          "Buffer / Fleet edge with a strictly positive delay / transit time, so no zero-time cycle exists); machine oracles work per visit, not per item. "
          "One in ten factories is a chain or a rows x cols mesh built by the helpers of factorysimpy.constructs (the harness hands them factories "
          "as node / edge classes and checks the wiring they produce against the documented topology).")
+RULE += (" Factories that use RANDOM are executed two more times with the seed set after the model was built (the global generator in two different "
+         "states during construction): both executions must be identical.")
 ASSUMPTIONS = ["address / hash-seed dependence is sampled (two hash seeds, one heap perturbation), not enumerated",
                "item ids are unique because node ids are"]
 KEEP_CASES = True
